@@ -160,6 +160,7 @@ def check_case(part, row, case):
     straddle = sum(1 for im in imgs if (im["frac"].min() < 0 or im["frac"].max() >= 1))
     part.outcome((len(ops), zk, straddle > 0))
     part.count("molecules_checked", want_n)
+    part.nstates(1)
     part.count("molecules_straddling_a_face", straddle)
     return len(part.failures) == nfail
 
